@@ -552,6 +552,11 @@ class _ExprNorm(ast.NodeTransformer):
         if isinstance(f, ast.Name) and f.id in ("list", "tuple") and len(node.args) == 1 and not node.keywords and isinstance(node.args[0], (ast.List, ast.Tuple)) and not any(isinstance(x, ast.Starred) for x in node.args[0].elts):
             ctor = ast.List if f.id == "list" else ast.Tuple
             return ast.copy_location(ctor(list(node.args[0].elts), ast.Load()), node)
+        # {k1: v1, ..}.items() == ((k1, v1), ..); .keys() / .values() alike (a literal table read in order)
+        if isinstance(f, ast.Attribute) and f.attr in ("items", "keys", "values") and isinstance(f.value, ast.Dict) and not node.args and not node.keywords and f.value.keys and all(k is not None for k in f.value.keys):
+            d_ = f.value
+            rows = [ast.Tuple([k, v], ast.Load()) for k, v in zip(d_.keys, d_.values)] if f.attr == "items" else (list(d_.keys) if f.attr == "keys" else list(d_.values))
+            return ast.copy_location(ast.Tuple(rows, ast.Load()), node)
         # dict(k=v, ..) == {"k": v, ..}
         if isinstance(f, ast.Name) and f.id == "dict" and not node.args and node.keywords and all(k.arg is not None for k in node.keywords):
             return ast.copy_location(ast.Dict([ast.Constant(k.arg) for k in node.keywords], [k.value for k in node.keywords]), node)
@@ -1249,9 +1254,19 @@ def inline_helpers(fn: ast.FunctionDef, helpers: Dict[str, Tuple[ast.FunctionDef
                             continue
                 # a call of a (statement-bodied) helper nested in a simple statement, evaluated before any other effect
                 # of that statement, is lifted: `__h = helper(..)` in front, the name in its place — then inlined as above
-                if isinstance(st, (ast.Assign, ast.Expr, ast.Return, ast.AugAssign)) and call is None:
-                    root = st.value
+                if isinstance(st, (ast.Assign, ast.Expr, ast.Return, ast.AugAssign, ast.If)) and (call is None or isinstance(st, ast.If)):
+                    root = st.test if isinstance(st, ast.If) else st.value
                     lifted = None
+                    if isinstance(st, ast.If) and _helper_call(root, helpers, cls) is not None:
+                        # `if helper(x):` with a statement-bodied helper: the test is evaluated first, once
+                        hb0 = [x for x in helpers[_helper_call(root, helpers, cls)][0].body if not _docstring(x)]
+                        if not (len(hb0) == 1 and isinstance(hb0[0], ast.Return)) and not any(isinstance(y, (ast.Yield, ast.YieldFrom)) for x in hb0 for y in ast.walk(x)):
+                            tmp0 = f"__h{zlib.crc32(ast.unparse(root).encode()) % 100000}"
+                            blk.insert(i, _loc(ast.Assign([ast.Name(tmp0, ast.Store())], root), st))
+                            st.test = ast.copy_location(ast.Name(tmp0, ast.Load()), root)
+                            changed += 1
+                            did = True
+                            continue
                     if root is not None:
                         for n in ast.walk(root):
                             nm_ = _helper_call(n, helpers, cls)
@@ -1269,7 +1284,10 @@ def inline_helpers(fn: ast.FunctionDef, helpers: Dict[str, Tuple[ast.FunctionDef
                                 break
                     if lifted is not None:
                         n, tmp, probe = lifted
-                        st.value = probe
+                        if isinstance(st, ast.If):
+                            st.test = probe
+                        else:
+                            st.value = probe
                         blk.insert(i, _loc(ast.Assign([ast.Name(tmp, ast.Store())], n), st))
                         changed += 1
                         did = True
@@ -1687,6 +1705,9 @@ def canonicalise(tree: ast.Module, ref_funcs: Optional[Set[str]], ref_consts: Op
     if ref_consts is not None:
         consts: Dict[str, ast.expr] = {}
         for st in tree.body:
+            if isinstance(st, (ast.Assign, ast.AnnAssign)) and st.value is not None:
+                # `dict(a=1)` is `{"a": 1}`, `tuple([..])` is `(..)`: the spelling of a table does not matter
+                st.value = ast.fix_missing_locations(_ExprNorm().visit(st.value))
             if isinstance(st, (ast.Assign, ast.AnnAssign)):
                 tg = st.targets[0] if isinstance(st, ast.Assign) and len(st.targets) == 1 else (st.target if isinstance(st, ast.AnnAssign) else None)
                 if isinstance(tg, ast.Name) and tg.id not in ref_consts and st.value is not None and isinstance(st.value, (ast.Dict, ast.List, ast.Tuple, ast.Set, ast.Constant)):
